@@ -224,7 +224,7 @@ def host_scatter_dynamic(g):
         axis = rr.pick(list(range(-rank, rank)))
     pa = axis % rank
 
-    sym = rr.pick(["static", "static", "named", "anon"])
+    sym = rr.pick(["static", "static", "named", "named", "anon"])
     ddims = list(shape)
     if sym == "named":
         ddims[pa] = "N"
@@ -277,7 +277,8 @@ def host_scatter_dynamic(g):
 
     # which dimension of data does the rule think is updated?  (data.shape[axis]); the true one is shape[:end][axis]
     perm = [pa] + [i for i in range(rank) if i != pa]
-    tv = dv("td", rr.pick(["transpose", "transpose", "self", "other_same"]), ["other_bigger", "other_bigger"])
+    # other_same_sym2: a separate buffer whose first dim has the SAME sample size but its own symbol (buf[:n] = upd with K >= N at run time)
+    tv = dv("td", rr.pick(["transpose", "transpose", "self", "other_same", "other_same_sym2", "other_same_sym2", "other_same_sym2"]), ["other_bigger", "other_bigger"])
     if tv == "self" and pa != 0:
         tv = "transpose"
     if tv == "transpose":
@@ -288,10 +289,12 @@ def host_scatter_dynamic(g):
     elif tv == "self":
         td = data
     else:
-        first = shape[pa] + (0 if tv == "other_same" else rr.pick([1, 2]))
+        first = shape[pa] + (0 if tv in ("other_same", "other_same_sym2") else rr.pick([1, 2]))
         oshape = (first,) + tuple(rr.pick([1, 2, 3]) for _ in range(rr.pick([0, 1, 2])))
         odims = list(oshape)
-        if sym == "named":
+        if tv == "other_same_sym2":
+            odims[0] = "K"
+        elif sym == "named":
             odims[0] = "N" if tv == "other_same" else "M"
         elif sym == "anon":
             odims[0] = None
